@@ -1,6 +1,7 @@
 import SamVerif.Model.StdMap
 import SamVerif.Model.StdSet
 import SamVerif.Model.StdList
+import SamVerif.Model.StdAux
 import Driver.Util
 /-! Protocol `stdops` (C18): replays collection operations through the models of
 `std/map.sam`, `std/set.sam`, `std/list.sam`.  One answer line per op line; the answers have the
@@ -256,6 +257,33 @@ def step (st : St) (line : String) : St × String :=
     storeL st d (StdList.bind (fun x => .cons x (.cons (Int.tmod x 1000 + int c) .nil)) (getL st s))
   | ["lflt", d, a, b, c] =>
     storeL st d (StdList.flatten (.cons (getL st a) (.cons (getL st b) (.cons (getL st c) .nil))))
+  | ["liter", s] => (st, StdList.iter (fun x (acc : String) => acc ++ s!"{x};") (getL st s) "" ++ "end")
+  | ["optx", a, p, c] =>
+    let o : StdAux.SOption Int := StdAux.SOption.filter (pred p (int c)) (.some (int a))
+    let so (x : StdAux.SOption Int) : String := showOptI x.toOption
+    let pre := StdAux.SOption.iter (fun x (acc : String) => acc ++ s!"{x};") o ""
+    let both := match (StdAux.SOption.both o (StdAux.SOption.map (· + 1) o)).toOption with
+      | none => "none"
+      | some pr => s!"some {pr.e0},{pr.e1}"
+    (st, pre ++ so (StdAux.SOption.map (· + 1) o) ++ "|" ++ so (StdAux.SOption.filter (fun x => Int.tmod x 2 != 0) o)
+      ++ "|" ++ so (StdAux.SOption.bind (fun x => if Int.tmod x 2 != 0 then .some (x * 2) else .none) o)
+      ++ "|" ++ showI (StdAux.SOption.valueMap (-1) (· + int c) o)
+      ++ "|" ++ showB (StdAux.SOption.isSome o) ++ showB (StdAux.SOption.isNone o)
+      ++ "|" ++ both ++ "|" ++ so (StdAux.SOption.tryUnwrap o))
+  | ["resx", a, p, c] =>
+    let o : StdAux.SOption Int := StdAux.SOption.filter (pred p (int c)) (.some (int a))
+    let r : StdAux.SResult Int Int := StdAux.SResult.fromOption o (int c)
+    let sr {α : Type} (f : α → String) (x : StdAux.SResult α Int) : String := match x with
+      | .ok v => "ok " ++ f v
+      | .error e => s!"err {e}"
+    let pre := StdAux.SResult.iterError (fun e (acc : String) => acc ++ s!"{e};")
+      r (StdAux.SResult.iter (fun x (acc : String) => acc ++ s!"{x};") r "")
+    (st, pre ++ sr showI r ++ "|" ++ showB (StdAux.SResult.isOk r) ++ showB (StdAux.SResult.isError r)
+      ++ "|" ++ showOptI (StdAux.SResult.ok? r).toOption
+      ++ "|" ++ sr showI (StdAux.SResult.map (· + 1) r)
+      ++ "|" ++ sr showI (StdAux.SResult.mapError (· + 1) r)
+      ++ "|" ++ sr (fun _ => "unit") (StdAux.SResult.ignore r)
+      ++ "|" ++ showOptI (StdAux.SResult.tryUnwrap r).toOption)
   | _ => (st, "bad-op")
 
 def run : IO Unit := runLoop ({} : St) step
